@@ -32,11 +32,11 @@ git -C $wt apply $patch
 go test -count=1 -run 'Demo|demo' $demo_pkg > /tmp/confirm_$id.demo_with 2>&1; d_with=$?
 echo "demo with change: rc=$d_with (want != 0); demo without: rc=$d_without (want 0)"
 if [ "$fw" = "$fo" ] && [ $d_with -ne 0 ] && [ $d_without -eq 0 ]; then
-  mkdir -p /verif/seeded/$id
-  cp $patch /verif/seeded/$id/patch.diff
-  cp $wt/$demo /verif/seeded/$id/zz_demo_test.go.txt
-  [ -f $wt/NOTES.md ] && cp $wt/NOTES.md /verif/seeded/$id/NOTES.md
-  echo "CONFIRMED -> /verif/seeded/$id/"
+  out=${SEED_NAME:-$id}; mkdir -p /verif/seeded/$out
+  cp $patch /verif/seeded/$out/patch.diff
+  cp $wt/$demo /verif/seeded/$out/zz_demo_test.go.txt
+  [ -f $wt/NOTES.md ] && cp $wt/NOTES.md /verif/seeded/$out/NOTES.md
+  echo "CONFIRMED -> /verif/seeded/$out/"
 else
   echo "NOT CONFIRMED"
 fi
